@@ -102,6 +102,11 @@ def zone(draw, name, policies, basic):
             step = draw(st.sampled_from([-60, 60, 30, -30, 120, 15, 0, 0, 45 if not basic else 60]))
             off = max(-959, min(959, off + step))
         kind = draw(st.sampled_from(["-", "fixed", "pol", "pol", "pol"] if policies else ["-", "fixed"]))
+        if basic and kind == "pol" and i > 0:
+            # known finding (KNOWN_FINDINGS.txt, C03 basic-era-change-into-policy): BasicZoneProcessor misplaces an era change at a
+            # year boundary into a rule-based era; excluded by construction and counted
+            kind = "-"
+            features.add("excluded:basic-era-change-into-policy")
         if kind == "-":
             rules, fmt = "-", draw(st.sampled_from(["LMT", "XST", "ABCD", "ZONE5", "SIXSIX"]))
         elif kind == "fixed":
@@ -144,17 +149,26 @@ def source(draw, basic=False):
     return {"policies": pols, "zones": zones, "links": links}
 
 
-def render(src):
+def render(src, prefix=""):
+    """prefix: inserted into every zone / policy / link name so that many sources can be compiled together."""
+    def zn(n):
+        return n.replace("Gen/", "Gen/" + prefix) if prefix else n
     out = []
+    pnames = set(p["name"] for p in src["policies"])
     for p in src["policies"]:
         for r in p["rules"]:
+            r = list(r)
+            r[1] = prefix + r[1]
             out.append("\t".join(str(x) for x in r))
     for z in src["zones"]:
         for i, e in enumerate(z["eras"]):
+            e = list(e)
+            if e[1] in pnames:
+                e[1] = prefix + e[1]
             body = "\t".join(x for x in e if x != "")
-            out.append(("Zone\t%s\t" % z["name"] if i == 0 else "\t\t\t") + body)
+            out.append(("Zone\t%s\t" % zn(z["name"]) if i == 0 else "\t\t\t") + body)
     for t, a in src["links"]:
-        out.append("Link\t%s\t%s" % (t, a))
+        out.append("Link\t%s\t%s" % (zn(t), zn(a)))
     return "\n".join(out) + "\n"
 
 
